@@ -429,6 +429,83 @@ theorem lastSig_batch_write_invisible (h0 x0 s xs stableH stableX : Nat) (h1 : h
 /-- non-vacuity, and the clamp matters: without it the two inputs differ -/
 example : clampLast 3 33 7 77 = clampLast 5 55 7 77 ∧ (3, 33) ≠ (5, 55) := by decide
 
+/-! ### the last-signed record as a monotone-max register (`SetLastSig`) -/
+
+/-- the record is an upper bound of every completed request and is one of them (or the initial 0) -/
+def MInv (s : MS) : Prop := (∀ x ∈ s.done, x ≤ s.cell) ∧ (s.cell = 0 ∨ s.cell ∈ s.done)
+
+theorem mxSteps_seq (i x : Nat) (s : MS) (h : MInv s) : MInv (runSteps (mxSteps i x) s) := by
+  obtain ⟨h1, h2⟩ := h
+  simp only [mxSteps, runSteps, List.foldl_cons, List.foldl_nil, mxRead, mxWrite, if_true]
+  by_cases hx : x > s.cell
+  · simp only [hx, if_true]
+    refine ⟨?_, Or.inr List.mem_cons_self⟩
+    intro y hy
+    simp only [List.mem_cons] at hy
+    rcases hy with rfl | hy
+    · exact Nat.le_refl _
+    · exact Nat.le_of_lt (Nat.lt_of_le_of_lt (h1 y hy) hx)
+  · simp only [hx, if_false]
+    refine ⟨?_, ?_⟩
+    · intro y hy
+      simp only [List.mem_cons] at hy
+      rcases hy with rfl | hy
+      · show y ≤ s.cell
+        omega
+      · exact h1 y hy
+    · rcases h2 with h2 | h2
+      · exact Or.inl h2
+      · exact Or.inr (List.mem_cons_of_mem _ h2)
+
+theorem minv_runSecs (secs : List (List (MS → MS))) (s : MS) (hs : MInv s)
+    (hq : ∀ fs ∈ secs, ∃ i x, fs = mxSteps i x) : MInv (runSecs secs s) := by
+  induction secs generalizing s with
+  | nil => exact hs
+  | cons fs r ih =>
+    obtain ⟨i, x, rfl⟩ := hq _ List.mem_cons_self
+    exact ih _ (mxSteps_seq i x s hs) (fun fs' hf => hq fs' (List.mem_cons_of_mem _ hf))
+
+/-- **lastsig_monotone** (check and update in ONE section of lastSigLock; any number of writers, writer `i` calling
+    `SetLastSig` with the heights `reqs i`; every schedule).  Whenever the lock is free the record is the MAXIMUM of
+    the completed requests: it bounds every one of them and is one of them — in particular it never moves backwards
+    below a height that a completed `SetLastSig` asked for, which is what every sequential order gives. -/
+theorem lastsig_monotone (reqs : Nat → List Nat) (sch : List Nat) :
+    let c := exec (init ({} : MS) (fun i => (reqs i).map (mxSec i))) sch
+    c.owner = none → (∀ x ∈ c.st.done, x ≤ c.st.cell) ∧ (c.st.cell = 0 ∨ c.st.cell ∈ c.st.done) := by
+  intro c ho
+  have hd := (drf_of_discipline ({} : MS) (fun i => (reqs i).map (mxSec i))
+    (by intro i sec h; simp only [List.mem_map] at h; obtain ⟨_, _, rfl⟩ := h; rfl) sch).1 ho
+  have hq : ∀ fs ∈ c.log, ∃ i x, fs = mxSteps i x := by
+    apply log_from_progs (fun fs => ∃ i x, fs = mxSteps i x) sch
+    · intro i sec h
+      simp only [init, List.mem_map] at h
+      obtain ⟨x, _, rfl⟩ := h
+      exact ⟨i, x, rfl⟩
+    · intro fs h; simp [init] at h
+  have hinv : MInv c.st := by
+    rw [hd.2]
+    apply minv_runSecs
+    · exact ⟨(by intro x hx; cases hx), Or.inl rfl⟩
+    · intro fs hfs; exact hq fs (List.mem_reverse.mp hfs)
+  exact hinv
+
+/-- non-vacuity: two locked writers (109 and 105), interleaved picks: the record ends at 109 -/
+example :
+    let c := exec (init ({} : MS) (fun i => if i = 0 then [mxSec 0 109] else if i = 1 then [mxSec 1 105] else []))
+      [1, 0, 1, 0, 1, 1, 0, 0, 0, 0]
+    c.owner = none ∧ c.st.cell = 109 ∧ c.st.done = [109, 105] := by decide
+
+/-- **REFUTATION for the split variant** (the seeded change: read `lastSig.Height` under the lock, unlock, compare and
+    hash outside, lock again, write; EVERY access is guarded, each step is its own locked section): both writers read
+    the old record 0, the writer of 109 updates, the writer of 105 updates last: the record ends at 105 although
+    `SetLastSig(109)` has completed — it moved backwards; both sequential orders end at 109. -/
+theorem lastsig_split_refuted :
+    ∃ sch : List Nat,
+      let c := exec (init ({} : MS) (fun i => if i = 0 then mxSplit 0 109 else if i = 1 then mxSplit 1 105 else [])) sch
+      c.st.done = [105, 109] ∧ c.st.cell = 105 ∧ c.owner = none ∧
+        (∀ j, j < 2 → ((c.ts j).cur.isNone ∧ (c.ts j).todo.isEmpty)) :=
+  ⟨[0, 0, 0, 1, 1, 1, 0, 0, 0, 1, 1, 1], by decide⟩
+
 /-! ### read-modify-write of a stored record (`setConfirm` on a stable block) -/
 
 /-- sequential invariant: the stored set is exactly the acknowledged confirms, in order (nothing lost,
@@ -619,6 +696,11 @@ set_option maxRecDepth 16000 in
 theorem table_unlocked_rows_are_startup :
     (table.filter (fun r => !r.held)).all (fun r => r.kind == .startup || benignPrechecks.contains r.fn) = true := by
   decide
+
+/-- **table_no_check_then_act_split**: the scanner found no function that reads a tracked variable in one section of
+    its lock and writes it in another one (the premise of `lastsig_monotone` / `rmw_no_lost_update` at function level:
+    check and update share a section) -/
+theorem table_no_check_then_act_split : rmwSplits = [] := rfl
 
 set_option maxRecDepth 16000 in
 /-- **table_head_decisions** (the premise of `cta_no_stale_decision` on the code): inside `MineBlock`, `InsertBlock`
